@@ -7,7 +7,8 @@ import RedisVerif.Model.Crdt
   Anchors: /repo/src/replication/anti_entropy.rs (`KeyDigest::{new, bucket}`,
   `MerkleNode::{empty, from_digests, combine}`, `StateDigest::{from_state, differs_from,
   divergent_buckets}`, `AntiEntropyManager::get_keys_in_buckets`),
-  /repo/src/simulator/multi_node.rs (`MultiNodeSimulation::run_anti_entropy_sync`,
+  `AntiEntropyManager::{process_peer_digest, create_sync_request, handle_sync_request}` (the
+  message protocol), /repo/src/simulator/multi_node.rs (`MultiNodeSimulation::run_anti_entropy_sync`,
   `SimulatedNode::apply_remote_deltas` → `ShardReplicaState::apply_remote_delta`).
 
   * SipHash (`DefaultHasher`) is NOT re-implemented: `Hasher` bundles the three ways the code
@@ -227,12 +228,55 @@ def syncRoundWith (H : Hasher) (sortBucket : Bool) (vs : ValueStream) (depth lim
     else (a, b)
   else (a, b)
 
+/-! ### the message protocol: `process_peer_digest` → `create_sync_request` →
+    `handle_sync_request` → the requester merges the response -/
+
+/-- in which order `handle_sync_request` applies the bucket filter and the per-round limit -/
+inductive RespOrder where
+  | filterThenTake   -- `.filter(bucket ∈ requested).take(max_keys_per_sync)` (the code as it is)
+  | takeThenFilter   -- `.take(max_keys_per_sync).filter(..)`: the limit cuts the ITERATION, not the answer
+  deriving DecidableEq, Repr
+
+/-- the deltas of `AntiEntropyManager::handle_sync_request(request, our_keys)`:
+    `requested_buckets = Some(buckets)` → the keys of those buckets, `None` → all keys; at most
+    `max_keys_per_sync`, in map iteration order `π` -/
+def responseKeysWith (ord : RespOrder) (H : Hasher) (vs : ValueStream) (depth limit : Nat) (π : List Nat)
+    (s : NMap RV) (requested : Option (List Nat)) : List (Nat × RV) :=
+  match requested with
+  | none => (iter π s).take limit
+  | some buckets =>
+    let inReq := fun (p : Nat × RV) => buckets.contains (bucketOf depth (keyDigest H vs p.1 p.2))
+    match ord with
+    | .filterThenTake => ((iter π s).filter inReq).take limit
+    | .takeThenFilter => ((iter π s).take limit).filter inReq
+
+def currentRespOrder : RespOrder := .filterThenTake
+
+/-- one pull: the requester (state `r`, order `πr`) compares digests with the peer (`p`, `πp`)
+    (`process_peer_digest`), asks for the divergent buckets (or, `full`, for the whole state:
+    `create_sync_request(.., buckets = None)`), the peer answers (`handle_sync_request`) and the
+    requester merges every delta of the answer (`apply_remote_delta`).
+    Returns (digests differ, requested buckets, answered keys, new requester state). -/
+def pullWith (ord : RespOrder) (H : Hasher) (sortBucket : Bool) (vs : ValueStream) (depth limit : Nat)
+    (full : Bool) (πr πp : List Nat) (r p : NMap RV) : Bool × List Nat × List (Nat × RV) × NMap RV :=
+  let dr := fromState H sortBucket vs depth πr r
+  let dp := fromState H sortBucket vs depth πp p
+  if differsFrom dr dp then
+    let div := divergentBuckets dr dp
+    let resp := responseKeysWith ord H vs depth limit πp p (if full then none else some div)
+    (true, div, resp, applyDeltas r resp)
+  else (false, [], [], r)
+
 /-- the digest / the sync round of the current tree -/
 def digest (H : Hasher) (depth : Nat) (π : List Nat) (s : NMap RV) : StateDigest :=
   fromState H currentSortBucket currentStream depth π s
 
 def syncRound (H : Hasher) (depth limit : Nat) (πa πb : List Nat) (a b : NMap RV) : NMap RV × NMap RV :=
   syncRoundWith H currentSortBucket currentStream depth limit πa πb a b
+
+def pull (H : Hasher) (depth limit : Nat) (full : Bool) (πr πp : List Nat) (r p : NMap RV) :
+    Bool × List Nat × List (Nat × RV) × NMap RV :=
+  pullWith currentRespOrder H currentSortBucket currentStream depth limit full πr πp r p
 
 end AE
 end RedisVerif
